@@ -48,11 +48,16 @@ def f_strsink(a: str, b: float = 2.0):
     return None
 
 
-CALLABLES = [f_none, f_plain, f_typed, f_kwonly, f_var, f_mixed, f_ret, f_strsink]
+def f_falsy(a: int = 0, b: str = "", c=None, *, d: bool = False) -> list:
+    return []
+
+
+CALLABLES = [f_none, f_plain, f_typed, f_kwonly, f_var, f_mixed, f_ret, f_strsink, f_falsy]
 POS = [(), (1,), ("ab",), (1, "z"), ([1, 2], None)]
 KW_KINDS = ["none", "first-compatible", "first-incompatible", "unknown", "two"]
 SAMPLE_VALUE = {"int": 7, "str": "s", "float": 2.5, "bool": True, "list": [1], "dict": {"k": 1}, "Any": 3}
 WRONG_VALUE = {"int": "no", "str": 5, "float": "no", "bool": "no", "list": 5, "dict": 5}
+# bool is a subclass of int: True is a valid int value, so the wrong values above avoid it on purpose
 
 
 def expected_schema(f):
